@@ -274,7 +274,13 @@ def c16_r5(ctx):
                   okmsg=f"{f2.qualname}: {len(ids)} reference(s) to the configured type-map variable")
     tm = repo.func(GS + "schema:generate_type_map")
     lp = [n for n in tm.node.body if isinstance(n, ast.For)]
-    good = len(lp) == 1 and len(lp[0].body) == 1 and isinstance(lp[0].body[0], ast.If) and norm(lp[0].body[0].test) == f"{norm(lp[0].target.elts[0])} not in STANDARD_TYPES"
+    good = len(lp) == 1 and len(lp[0].body) == 1 and isinstance(lp[0].body[0], ast.If) and isinstance(lp[0].target, ast.Tuple) and norm(lp[0].body[0].test) == f"{norm(lp[0].target.elts[0])} not in STANDARD_TYPES"
+    if not lp:
+        # comprehension form: the filter is a dict comprehension over type_map.items() that the key / value comprehensions read
+        from ..util import comp_struct
+        src = tm.node.args.args[0].arg
+        filters = [comp_struct(n) for n in walk_no_nested(tm.node) if isinstance(n, ast.DictComp)]
+        good = filters == [("$0_0: $0_1", [(f"{src}.items()", ["$0_0 not in STANDARD_TYPES"])])]
     ctx.check(good, key(tm, "filter"), "type map entries are filtered by something other than the standard type names", tm.loc(), okmsg="every non-standard type is emitted")
     st = repo.resolve(repo.mod(GS + "constants"), "STANDARD_TYPES")
     want = {"ID", "Boolean", "Float", "Int", "String", "__Schema", "__Type", "__TypeKind", "__Field", "__InputValue", "__EnumValue", "__Directive", "__DirectiveLocation"}
